@@ -7,8 +7,8 @@ use std::collections::{BTreeMap, HashMap};
 
 use crate::{
     circuit::{
-        CachedPanicResult, Circuit, CircuitBuilder, CircuitBuilderOptions, GateIndex, PanicReason,
-        PanicResult,
+        CachedPanicResult, Circuit, CircuitBuilder, CircuitBuilderOptions, EvalPanic, GateIndex,
+        PanicReason, PanicResult,
     },
     env::Env,
     token::MetaInfo,
@@ -39,6 +39,19 @@ impl PanicState {
         v.sort();
         v
     }
+
+    /// The condition wires that are keys of the cache, sorted.
+    pub fn cache_keys(&self) -> Vec<GateIndex> {
+        let mut v: Vec<_> = self.0.cache_for_hooks().keys().copied().collect();
+        v.sort();
+        v
+    }
+}
+
+/// `EvalPanic::parse` on raw output bits: `Ok(n)` = no panic, `n` result bits follow the
+/// record; `Err(panic)` = the decoded panic. (Panics exactly where `EvalPanic::parse` does.)
+pub fn parse_panic(bits: &[bool]) -> Result<usize, EvalPanic> {
+    EvalPanic::parse(bits).map(|rest| rest.len())
 }
 
 fn panic_wires(r: &PanicResult) -> Vec<GateIndex> {
